@@ -10,7 +10,7 @@ RUN_MODULE = "Spec.TTLMap Model.Tags Run.C12"
 EXPLAIN = "explain"
 KEYS = ["a:1", "a:2", "b:1", "b:2", "c", "b:"]      # "b:" is the key of the templated function called with an empty field
 # registry: tag "ta" registered for key template "a:{x}" and, second, for the key "c"; templated tag "g:{x}" attached by a decorator to "b:{x}"; "u" is never registered
-REG = [("plain", "ta", "a:"), ("templ", "g:", "b:"), ("plain", "ta", "c")]      # "ta" is registered for two key templates
+REG = [("plain", "ta", "a:"), ("templ", "g:", "b:"), ("plain", "ta", "c"), ("plain", "tb", "a:")]      # "ta" is registered for two key templates; "a:{x}" has two registered tags
 RULE = ("histories (2-14 events) of tagged / untagged set and incr (by 1, 2, 0, -1, -5: counters reaching 0 included; direct cache.set(..., tags=) and through a decorated function whose tags= "
         "registers a templated tag), delete, delete_match, delete_tags (one tag, or 2-3 tags in one call, incl. a tag nobody carries) over 6 keys (one of them the templated "
         "function's key for an empty field), tags {ta (registered), g:<x> (templated, registered by decorator), u (never registered)}, TTL in {none, 0.25 s, 100 s}, advances 0-0.5 s; every key probed before and after each event; plus "
@@ -90,6 +90,13 @@ def gen_cases(rng, tier):
                     ev += [[0, ["set", k, 5, 0, [], "set"]], [0, ["dtags", t]]]
                 for unp in ([k], [k, other], []):
                     cases.append({"keys": KEYS, "events": ev, "unprobed": unp})
+    # a key carrying BOTH tags registered for its template: removed (delete / delete_match / delete_tags of one tag), re-created
+    # without tags, then delete_tags of one of the two - it must stay
+    for k in ("a:1", "a:2"):
+        for rm in (["del", k], ["delp", "a:"], ["dtags", "ta"], ["dtags", "tb"]):
+            for last in ("ta", "tb"):
+                cases.append({"keys": KEYS, "events": [[0, ["set", k, 1, 0, ["ta", "tb"], "set"]], [0, ["set", "c", 1, 0, [], "set"]], [0, rm],
+                                                       [0, ["set", k, 5, 0, [], "set"]], [0, ["dtags", last]]]})
     # the plain decorator as the writer (value or cached exception, positional or keyword call), then delete_tags of its templated tag
     for k in [x for x in KEYS if x.startswith("b:")]:
         for first in (0, 1, 2, 3, 4, 5):
@@ -113,6 +120,7 @@ def run_impl(case):
         await cache.init()
         cache.register_tag("ta", "a:{x}")
         cache.register_tag("ta", "c")
+        cache.register_tag("tb", "a:{x}")
 
         @cache(ttl=lambda x, value=None, life=None, result=None: life, key="b:{x}", tags=["g:{x}"])
         async def fb(x, value=None, life=None):
